@@ -35,6 +35,7 @@ type bigreadFamily struct {
 	stride  []int                // how many array items one element occupies in that listing (WITHSCORES / HGETALL: 2)
 	ordered []int                // 0 unordered, 1 ascending by index, -1 descending by index
 	card    []string             // cardinality command, or nil
+	sample  []string             // random-selection command (flat array of element names), or nil
 }
 
 func bigreadFamilies() []bigreadFamily {
@@ -49,12 +50,12 @@ func bigreadFamilies() []bigreadFamily {
 			add:     func(i int) []string { return []string{"HSET", "bigh", pad(i), "v"} },
 			elem:    pad,
 			listers: [][]string{{"HKEYS", "bigh"}, {"HGETALL", "bigh"}},
-			stride:  []int{1, 2}, ordered: []int{0, 0}, card: []string{"HLEN", "bigh"}},
+			stride:  []int{1, 2}, ordered: []int{0, 0}, card: []string{"HLEN", "bigh"}, sample: []string{"HRANDFIELD", "bigh", "7"}},
 		{name: "set", key: "bigs",
 			add:     func(i int) []string { return []string{"SADD", "bigs", pad(i)} },
 			elem:    pad,
 			listers: [][]string{{"SMEMBERS", "bigs"}, {"SUNION", "bigs"}},
-			stride:  []int{1, 1}, ordered: []int{0, 0}, card: []string{"SCARD", "bigs"}},
+			stride:  []int{1, 1}, ordered: []int{0, 0}, card: []string{"SCARD", "bigs"}, sample: []string{"SRANDMEMBER", "bigs", "7"}},
 		{name: "list", key: "bigl",
 			add:     func(i int) []string { return []string{"RPUSH", "bigl", pad(i)} },
 			elem:    pad,
@@ -202,6 +203,29 @@ func bigRead(seed int64, rounds int, want map[string]bool, enc *json.Encoder) {
 						if !seen[ix] {
 							bad.CompareAndSwap(nil, fmt.Sprintf("%s (%d elements) lacks %q, whose addition was acknowledged before the command was invoked", who, n, f.elem(int(ix))))
 							return
+						}
+					}
+					if f.sample != nil {
+						// random selection right after a change (the writer keeps adding): only elements that exist may come back, and nothing may crash
+						out, p := runCmd(mgr, f.sample...)
+						hi3 := invoked.Load()
+						if p {
+							bad.CompareAndSwap(nil, strings.Join(f.sample, " ")+" panicked: "+out)
+							return
+						}
+						its, ok := flatBulks(out)
+						if !ok || len(its) != 7 {
+							bad.CompareAndSwap(nil, fmt.Sprintf("%s answered %q (7 distinct elements of a container of thousands expected)", strings.Join(f.sample, " "), out[:imin(len(out), 120)]))
+							return
+						}
+						seen7 := map[string]bool{}
+						for _, it := range its {
+							ix, ok := index(it)
+							if !ok || int64(ix) >= hi3 || seen7[it] {
+								bad.CompareAndSwap(nil, fmt.Sprintf("%s returned %q (not an element / twice)", strings.Join(f.sample, " "), it))
+								return
+							}
+							seen7[it] = true
 						}
 					}
 					if f.card != nil && i%3 == 0 {
